@@ -6,30 +6,740 @@ C02 — property theorems. Statement of the property:
   the input intervals is a member of the computed abstract result. Bounds, stride and width of
   every produced interval stay well-formed (start <= end, members lie on the stride, stride 0
   exactly for singletons).
+
+The lemmas per operation live in `Arith` (add, sub, 2-complement, not), `Adjust`, `Ext` (extensions),
+`Sub` (subpiece), `Piece`, `Mul` (multiplication), `Count` (contains, popcount, lzcount); this file
+lifts them to `IntervalDomain` (`RegisterDomain::bin_op / un_op / cast / subpiece`), where the widening
+hints and the delay are carried along, and states the summary theorems.
 -/
-import CweModel.C02.Model
+import CweModel.C02.Mul
+import CweModel.C02.Count
+
+set_option linter.unusedSimpArgs false
 
 namespace CweModel.C02
 open CweModel.Itv
 
-/-! ### overflow-checked addition / subtraction -/
+/-! ### reference semantics of the operations on members -/
 
-theorem sAOC_spec (w : Nat) (hw : 0 < w) {x y : Int} (hx : InRange w x) (hy : InRange w y) :
-    signedAddOverflowChecked w x y = if InRange w (x + y) then some (x + y) else none := by
-  have h2 := pow2_eq w hw
-  have hp := pow2_pos (w - 1)
-  unfold signedAddOverflowChecked
-  rcases wrap_cases w hw (x + y) (by unfold InRange smin smax at *; omega)
-      (by unfold InRange smin smax at *; omega) with ⟨hr, he⟩ | ⟨hr, he⟩ | ⟨hr, he⟩
-  · simp only [he, hr, if_true]
-    by_cases hy0 : y < 0 <;> simp [hy0] <;> omega
-  · have hn : ¬ InRange w (x + y) := by unfold InRange; omega
-    simp only [he, hn, if_false]
-    unfold InRange smin smax at *
-    by_cases hy0 : y < 0 <;> simp [hy0] <;> omega
-  · have hn : ¬ InRange w (x + y) := by unfold InRange; omega
-    simp only [he, hn, if_false]
-    unfold InRange smin smax at *
-    by_cases hy0 : y < 0 <;> simp [hy0] <;> omega
+/-- concrete result of a binary operation. For the operations the domain evaluates on singletons only,
+the semantics is the parameter `conc` (= `Bitvector::bin_op`, the subject of C01). -/
+def concBin (conc : BinOp → Int → Int → Option Int) (op : BinOp) (wa wb : Nat) (x y : Int) : Option Int :=
+  match op with
+  | .intAdd => some (cadd wa x y)
+  | .intSub => some (csub wa x y)
+  | .intMult => some (cmul wa x y)
+  | .intLeft => some (cshl wa x (toU wb y))
+  | .piece => some (cpiece wa wb x y)
+  | op => conc op x y
+
+/-- operand widths the operation is defined for (`bin_op` asserts equal sizes except for shifts/piece) -/
+def BinWidths (op : BinOp) (wa wb : Nat) : Prop :=
+  match op with
+  | .piece | .intLeft | .intRight | .intSRight => True
+  | _ => wb = wa
+
+/-- concrete result of a unary operation (`none`: no integer semantics, e.g. float operations, or a
+non-boolean operand of BOOL_NEGATE) -/
+def concUn (op : UnOp) (w : Nat) (x : Int) : Option Int :=
+  match op with
+  | .int2Comp => some (cneg w x)
+  | .intNegate => some (cnot w x)
+  | .boolNegate => if w = 8 then (if x = 0 then some 1 else if x = 1 then some 0 else none) else none
+  | _ => none
+
+/-- concrete result of a cast -/
+def concCast (op : CastOp) (w w' : Nat) (x : Int) : Option Int :=
+  match op with
+  | .intZExt => some (czext w w' x)
+  | .intSExt => some (csext w w' x)
+  | .popCount => some (cpopcount w w' x)
+  | .lzCount => some (clzcount w w' x)
+  | _ => none
+
+/-! ### plumbing -/
+
+theorem dom_wf_mk {I : Interval} (hI : I.WF) {u l : Option Int} {d : Nat}
+    (hu : ∀ v, u = some v → InRange I.w v) (hl : ∀ v, l = some v → InRange I.w v) (hd : d < 2 ^ 64) :
+    (IntervalDomain.mk I u l d).WF := ⟨hI, hu, hl, hd⟩
+
+theorem max_lt {a b n : Nat} (ha : a < n) (hb : b < n) : max a b < n := by
+  rcases Nat.le_total a b with h | h
+  · rw [Nat.max_eq_right h]; exact hb
+  · rw [Nat.max_eq_left h]; exact ha
+
+theorem sAOC_inRange (w : Nat) (hw : 0 < w) (x y : Int) {r : Int} (h : signedAddOverflowChecked w x y = some r) :
+    InRange w r := by
+  simp only [signedAddOverflowChecked] at h
+  split at h
+  · cases h
+  · cases h; exact wrap_inRange w hw _
+
+theorem sSOC_inRange (w : Nat) (hw : 0 < w) (x y : Int) {r : Int} (h : signedSubOverflowChecked w x y = some r) :
+    InRange w r := by
+  simp only [signedSubOverflowChecked] at h
+  split at h
+  · cases h
+  · cases h; exact wrap_inRange w hw _
+
+theorem bind_inRange {w : Nat} (o : Option Int) (f : Int → Option Int)
+    (hf : ∀ x r, f x = some r → InRange w r) : ∀ v, o.bind f = some v → InRange w v := by
+  intro v hv
+  cases o with
+  | none => cases hv
+  | some x => exact hf x v hv
+
+/-! ### `IntervalDomain::add` / `sub` -/
+
+theorem add_interval (a b : IntervalDomain) : (a.add b).interval = a.interval.add b.interval := by
+  unfold IntervalDomain.add
+  simp only
+  split
+  · rfl
+  · simp only [updateUpper_interval, updateLower_interval]; rfl
+
+theorem sub_interval (a b : IntervalDomain) : (a.sub b).interval = a.interval.sub b.interval := by
+  unfold IntervalDomain.sub
+  simp only
+  split
+  · rfl
+  · simp only [updateUpper_interval, updateLower_interval]; rfl
+
+theorem ofInterval_wf' {I : Interval} (h : I.WF) : (IntervalDomain.ofInterval I).WF := ofInterval_wf h
+
+theorem add_dom_wf (a b : IntervalDomain) (ha : a.WF) (hb : b.WF) (hw : b.interval.w = a.interval.w)
+    (hw1 : 1 < a.interval.w) : (a.add b).WF := by
+  obtain ⟨hwfI, hwI⟩ := add_wf a.interval b.interval ha.1 hb.1 hw hw1
+  have hw0 : 0 < a.interval.w := by omega
+  unfold IntervalDomain.add
+  simp only
+  split
+  · exact ofInterval_wf' hwfI
+  · have base : (IntervalDomain.mk (a.interval.add b.interval) none none (max a.delay b.delay)).WF :=
+      dom_wf_mk hwfI (by intro v h; cases h) (by intro v h; cases h) (max_lt ha.2.2.2 hb.2.2.2)
+    have hr : ∀ (o : Option Int) (z : Int), ∀ v, (o.bind fun bd => signedAddOverflowChecked a.w bd z) = some v →
+        InRange (a.interval.add b.interval).w v := by
+      intro o z
+      rw [hwI]
+      exact bind_inRange o _ (fun x r h => sAOC_inRange _ hw0 x z h)
+    apply updateUpper_wf _ _ _ (by simp only [updateUpper_interval, updateLower_interval]; exact hr _ _)
+    apply updateUpper_wf _ _ _ (by simp only [updateUpper_interval, updateLower_interval]; exact hr _ _)
+    apply updateLower_wf _ _ _ (by simp only [updateLower_interval]; exact hr _ _)
+    apply updateLower_wf _ _ _ (by exact hr _ _)
+    exact base
+
+theorem sub_dom_wf (a b : IntervalDomain) (ha : a.WF) (hb : b.WF) (hw : b.interval.w = a.interval.w)
+    (hw1 : 1 < a.interval.w) : (a.sub b).WF := by
+  obtain ⟨hwfI, hwI⟩ := sub_wf a.interval b.interval ha.1 hb.1 hw hw1
+  have hw0 : 0 < a.interval.w := by omega
+  unfold IntervalDomain.sub
+  simp only
+  split
+  · exact ofInterval_wf' hwfI
+  · have base : (IntervalDomain.mk (a.interval.sub b.interval) none none (max a.delay b.delay)).WF :=
+      dom_wf_mk hwfI (by intro v h; cases h) (by intro v h; cases h) (max_lt ha.2.2.2 hb.2.2.2)
+    have hr1 : ∀ (o : Option Int) (z : Int), ∀ v, (o.bind fun bd => signedSubOverflowChecked a.w bd z) = some v →
+        InRange (a.interval.sub b.interval).w v := by
+      intro o z
+      rw [hwI]
+      exact bind_inRange o _ (fun x r h => sSOC_inRange _ hw0 x z h)
+    have hr2 : ∀ (o : Option Int) (z : Int), ∀ v, (o.bind fun bd => signedSubOverflowChecked a.w z bd) = some v →
+        InRange (a.interval.sub b.interval).w v := by
+      intro o z
+      rw [hwI]
+      exact bind_inRange o _ (fun x r h => sSOC_inRange _ hw0 z x h)
+    apply updateUpper_wf _ _ _ (by simp only [updateUpper_interval, updateLower_interval]; exact hr2 _ _)
+    apply updateUpper_wf _ _ _ (by simp only [updateUpper_interval, updateLower_interval]; exact hr1 _ _)
+    apply updateLower_wf _ _ _ (by simp only [updateLower_interval]; exact hr2 _ _)
+    apply updateLower_wf _ _ _ (by exact hr1 _ _)
+    exact base
+
+/-! ### `IntervalDomain::signed_mul`, `shift_left` -/
+
+theorem smof_fst_inRange (w : Nat) (hw : 0 < w) (x y : Int) : InRange w (signedMultWithOverflowFlag w x y).1 := by
+  have := pow2_pos (w - 1)
+  unfold signedMultWithOverflowFlag
+  split
+  · unfold InRange smin smax; simp only; omega
+  · simp only; split <;> exact wrap_inRange w hw _
+
+theorem hintProduct_inRange (w : Nat) (hw : 0 < w) (x y : Option Int) :
+    ∀ v ∈ IntervalDomain.hintProduct w x y, InRange w v := by
+  intro v hv
+  unfold IntervalDomain.hintProduct at hv
+  split at hv
+  · simp only at hv
+    split at hv
+    · cases hv
+    · simp only [List.mem_singleton] at hv
+      rw [hv]; exact smof_fst_inRange w hw _ _
+  · cases hv
+
+/-- the result of the bound-selection folds is an element of the candidate list -/
+theorem fold_pick {p : Option Int → Int → Option Int}
+    (hp : ∀ acc bd, p acc bd = acc ∨ p acc bd = some bd) (l : List Int) (init : Option Int) :
+    ∀ v, l.foldl p init = some v → init = some v ∨ v ∈ l := by
+  induction l generalizing init with
+  | nil => intro v h; exact .inl h
+  | cons b bs ih =>
+    intro v h
+    rw [List.foldl_cons] at h
+    rcases ih _ v h with h1 | h1
+    · rcases hp init b with h2 | h2
+      · rw [h2] at h1; exact .inl h1
+      · rw [h2] at h1; cases h1; exact .inr (List.mem_cons_self)
+    · exact .inr (List.mem_cons_of_mem _ h1)
+
+theorem signedMul_interval (a b : IntervalDomain) :
+    (a.signedMul b).interval = a.interval.signedMul b.interval := by
+  unfold IntervalDomain.signedMul
+  simp only
+  split <;> rfl
+
+theorem signedMul_dom_wf (a b : IntervalDomain) (ha : a.WF) (hb : b.WF)
+    (hI : (a.interval.signedMul b.interval).WF) (hwI : (a.interval.signedMul b.interval).w = a.interval.w) :
+    (a.signedMul b).WF := by
+  have hw0 : 0 < a.interval.w := ha.1.1
+  unfold IntervalDomain.signedMul
+  simp only
+  split
+  · exact ofInterval_wf' hI
+  · have hall : ∀ v ∈ (IntervalDomain.hintProduct a.w a.lower b.lower ++ IntervalDomain.hintProduct a.w a.lower b.upper ++
+        IntervalDomain.hintProduct a.w a.upper b.lower ++ IntervalDomain.hintProduct a.w a.upper b.upper),
+        InRange a.interval.w v := by
+      intro v hv
+      simp only [List.mem_append] at hv
+      rcases hv with ((h | h) | h) | h <;> exact hintProduct_inRange _ hw0 _ _ v h
+    refine dom_wf_mk hI ?_ ?_ (max_lt ha.2.2.2 hb.2.2.2)
+    · intro v hv
+      rw [hwI]
+      rcases fold_pick (by
+          intro acc bd
+          by_cases h1 : bd > (a.interval.signedMul b.interval).stop
+          · simp only [h1, if_true]
+            cases acc with
+            | none => exact .inr rfl
+            | some prev => simp only; split <;> simp
+          · simp only [h1, if_false]; exact .inl trivial) _ none v hv with h | h
+      · cases h
+      · exact hall v h
+    · intro v hv
+      rw [hwI]
+      rcases fold_pick (by
+          intro acc bd
+          by_cases h1 : bd < (a.interval.signedMul b.interval).start
+          · simp only [h1, if_true]
+            cases acc with
+            | none => exact .inr rfl
+            | some prev => simp only; split <;> simp
+          · simp only [h1, if_false]; exact .inl trivial) _ none v hv with h | h
+      · cases h
+      · exact hall v h
+
+/-- `shift_left` with a singleton amount below the width is a multiplication with `2^n` -/
+theorem cshl_eq_cmul (w : Nat) (hw : 0 < w) (x : Int) (n : Nat) (hn : n < w) :
+    cshl w x n = cmul w x (wrap w ((2 ^ n : Nat) : Int)) := by
+  unfold cshl cmul
+  rw [if_pos hn]
+  apply wrap_congr w hw
+  obtain ⟨_, k, hk⟩ := wrap_spec w hw (((2 ^ n : Nat) : Int))
+  rw [hk, Int.mul_add, ← Int.mul_assoc]
+  refine ⟨-(x * k), ?_⟩
+  rw [Int.mul_neg, Int.mul_comm (pow2 w)]; omega
+
+theorem shiftLeft_eq_mul (a b : IntervalDomain) (hs : b.interval.start = b.interval.stop)
+    (hn : toU b.interval.w b.interval.start < a.interval.w) :
+    a.shiftLeft b = a.signedMul (IntervalDomain.single a.interval.w
+      (wrap a.interval.w ((2 ^ toU b.interval.w b.interval.start : Nat) : Int))) := by
+  unfold IntervalDomain.shiftLeft IntervalDomain.w
+  rw [if_pos hs]; simp only; rw [if_pos hn]
+
+theorem shiftLeft_eq_zero (a b : IntervalDomain) (hs : b.interval.start = b.interval.stop)
+    (hn : ¬ toU b.interval.w b.interval.start < a.interval.w) :
+    a.shiftLeft b = IntervalDomain.single a.interval.w 0 := by
+  unfold IntervalDomain.shiftLeft IntervalDomain.w
+  rw [if_pos hs]; simp only; rw [if_neg hn]
+
+theorem shiftLeft_eq_top (a b : IntervalDomain) (hs : ¬ b.interval.start = b.interval.stop) :
+    a.shiftLeft b = IntervalDomain.newTop a.interval.w := by
+  unfold IntervalDomain.shiftLeft IntervalDomain.w
+  rw [if_neg hs]
+
+/-- **C02-shl.** Soundness and well-formedness of `IntervalDomain::shift_left`. -/
+theorem shiftLeft_spec (a b : IntervalDomain) (ha : a.WF) (_hb : b.WF) (hw1 : 1 < a.interval.w) {x y : Int}
+    (hx : a.Mem x) (hy : b.Mem y) :
+    (a.shiftLeft b).Mem (cshl a.interval.w x (toU b.interval.w y)) ∧ (a.shiftLeft b).WF ∧
+      (a.shiftLeft b).interval.w = a.interval.w := by
+  have hw0 : 0 < a.interval.w := by omega
+  have hxr := Interval.mem_inRange ha.1 hx
+  by_cases hsingle : b.interval.start = b.interval.stop
+  · have hyeq : y = b.interval.start := by
+      have := hy.1; have := hy.2.1; omega
+    subst hyeq
+    by_cases hn : toU b.interval.w b.interval.start < a.interval.w
+    · rw [shiftLeft_eq_mul a b hsingle hn]
+      have hm : InRange a.interval.w (wrap a.interval.w ((2 ^ toU b.interval.w b.interval.start : Nat) : Int)) :=
+        wrap_inRange _ hw0 _
+      have hJ : (Interval.single a.interval.w (wrap a.interval.w ((2 ^ toU b.interval.w b.interval.start : Nat) : Int))).WF :=
+        Interval.wf_single _ hw0 _ hm
+      have hspec := signedMul_spec a.interval _ ha.1 hJ rfl hw1 hx ((Interval.mem_single _ _ _).mpr rfl)
+      rw [cshl_eq_cmul _ hw0 _ _ hn]
+      refine ⟨?_, ?_, ?_⟩
+      · show ((a.signedMul _).interval).Mem _
+        rw [signedMul_interval]; exact hspec.1
+      · exact signedMul_dom_wf a _ ha (ofInterval_wf' hJ) hspec.2.1 hspec.2.2
+      · rw [signedMul_interval]; exact hspec.2.2
+    · rw [shiftLeft_eq_zero a b hsingle hn]
+      have h0r : InRange a.interval.w 0 := by
+        have := pow2_pos (a.interval.w - 1); unfold InRange smin smax; omega
+      refine ⟨?_, ofInterval_wf' (Interval.wf_single _ hw0 _ h0r), rfl⟩
+      unfold cshl; rw [if_neg hn]
+      exact (Interval.mem_single _ _ _).mpr rfl
+  · rw [shiftLeft_eq_top a b hsingle]
+    refine ⟨?_, ofInterval_wf' (Interval.wf_newTop _ hw1), rfl⟩
+    apply (Interval.mem_newTop _ _).mpr
+    unfold cshl
+    split
+    · exact wrap_inRange _ hw0 _
+    · have := pow2_pos (a.interval.w - 1); unfold InRange smin smax; omega
+
+/-! ### `IntervalDomain::piece` -/
+
+theorem piece_interval (a b : IntervalDomain) : (a.piece b).interval = a.interval.piece b.interval := by
+  unfold IntervalDomain.piece
+  simp only
+  split <;> rfl
+
+theorem cpiece_inRange (wh wl : Nat) (h : 0 < wh + wl) (x y : Int) : InRange (wh + wl) (cpiece wh wl x y) :=
+  wrap_inRange _ h _
+
+theorem piece_dom_wf (a b : IntervalDomain) (hb : b.WF) (hI : (a.interval.piece b.interval).WF)
+    (hwI : (a.interval.piece b.interval).w = a.interval.w + b.interval.w) : (a.piece b).WF := by
+  unfold IntervalDomain.piece
+  simp only
+  split
+  · refine dom_wf_mk hI ?_ ?_ hb.2.2.2
+    · intro v hv
+      split at hv
+      · split at hv
+        · cases hv; rw [hwI]; exact cpiece_inRange _ _ (by rw [← hwI]; exact hI.1) _ _
+        · cases hv
+      · cases hv
+    · intro v hv
+      split at hv
+      · split at hv
+        · cases hv; rw [hwI]; exact cpiece_inRange _ _ (by rw [← hwI]; exact hI.1) _ _
+        · cases hv
+      · cases hv
+  · exact dom_wf_mk hI (by intro v h; cases h) (by intro v h; cases h) (by decide)
+
+/-! ### `RegisterDomain::bin_op` -/
+
+/-- the operations with a dedicated transfer function -/
+def isSpecial : BinOp → Bool
+  | .piece | .intAdd | .intSub | .intMult | .intLeft => true
+  | _ => false
+
+/-- the concrete evaluation returns values of the result width -/
+def ConcInRange (conc : BinOp → Int → Int → Option Int) (wa wb : Nat) : Prop :=
+  ∀ op x y v, conc op x y = some v → InRange (binOpWidth op wa wb) v
+
+/-- shape of `bin_op` for the operations without a dedicated transfer function -/
+theorem binOp_fallthrough (conc : BinOp → Int → Int → Option Int) (a b : IntervalDomain) (op : BinOp)
+    (hop : isSpecial op = false) :
+    a.binOp conc op b =
+      { interval :=
+          if a.interval.start = a.interval.stop ∧ b.interval.start = b.interval.stop then
+            match conc op a.interval.start b.interval.start with
+            | some v => Interval.single (binOpWidth op a.w b.w) v
+            | none => Interval.newTop (binOpWidth op a.w b.w)
+          else Interval.newTop (binOpWidth op a.w b.w),
+        lower := none, upper := none, delay := max a.delay b.delay } := by
+  cases op <;> first | rfl | (simp [isSpecial] at hop)
+
+theorem binOpWidth_pos (op : BinOp) (wa wb : Nat) (h : 1 < wa) : 1 < binOpWidth op wa wb := by
+  cases op <;> simp [binOpWidth] <;> omega
+
+/-- **C02-binop (soundness).** Every concrete result of a binary operation on members of the operands
+is a member of the abstract result. -/
+theorem binOp_sound (conc : BinOp → Int → Int → Option Int) (a b : IntervalDomain) (op : BinOp)
+    (ha : a.WF) (hb : b.WF) (hw1 : 1 < a.interval.w) (hwid : BinWidths op a.interval.w b.interval.w)
+    (hconc : ConcInRange conc a.interval.w b.interval.w)
+    {x y z : Int} (hx : a.Mem x) (hy : b.Mem y)
+    (hz : concBin conc op a.interval.w b.interval.w x y = some z) : (a.binOp conc op b).Mem z := by
+  by_cases hsp : isSpecial op = true
+  · cases op <;> simp [isSpecial] at hsp
+    · -- piece
+      simp only [concBin, Option.some.injEq] at hz; subst hz
+      show ((a.piece b).interval).Mem _
+      rw [piece_interval]; exact (piece_spec _ _ ha.1 hb.1 hx hy).1
+    · simp only [concBin, Option.some.injEq] at hz; subst hz
+      show ((a.add b).interval).Mem _
+      rw [add_interval]; exact add_sound _ _ ha.1 hb.1 hwid hx hy
+    · simp only [concBin, Option.some.injEq] at hz; subst hz
+      show ((a.sub b).interval).Mem _
+      rw [sub_interval]; exact sub_sound _ _ ha.1 hb.1 hwid hx hy
+    · simp only [concBin, Option.some.injEq] at hz; subst hz
+      exact (shiftLeft_spec a b ha hb hw1 hx hy).1
+    · simp only [concBin, Option.some.injEq] at hz; subst hz
+      show ((a.signedMul b).interval).Mem _
+      rw [signedMul_interval]; exact (signedMul_spec _ _ ha.1 hb.1 hwid hw1 hx hy).1
+  · have hsp' : isSpecial op = false := by simpa using hsp
+    rw [binOp_fallthrough conc a b op hsp']
+    show (if _ then _ else _ : Interval).Mem z
+    have hzc : conc op x y = some z := by
+      cases op <;> first | exact hz | (simp [isSpecial] at hsp')
+    split
+    · rename_i hs
+      have hxs : x = a.interval.start := by have := hx.1; have := hx.2.1; omega
+      have hys : y = b.interval.start := by have := hy.1; have := hy.2.1; omega
+      rw [← hxs, ← hys, hzc]
+      exact (Interval.mem_single _ _ _).mpr rfl
+    · -- not both singletons: Top of the result width
+      exact (Interval.mem_newTop _ _).mpr (hconc op x y z hzc)
+
+/-- **C02-binop (well-formedness).** The result of a binary operation is well-formed (bounds ordered and
+in range, stride 0 exactly for singletons and dividing the length, hints in range) and has the width
+`bin_op_bytesize` prescribes. -/
+theorem binOp_wf (conc : BinOp → Int → Int → Option Int) (a b : IntervalDomain) (op : BinOp)
+    (ha : a.WF) (hb : b.WF) (hw1 : 1 < a.interval.w) (hwid : BinWidths op a.interval.w b.interval.w)
+    (hconc : ConcInRange conc a.interval.w b.interval.w) :
+    (a.binOp conc op b).WF ∧ (a.binOp conc op b).interval.w = binOpWidth op a.interval.w b.interval.w := by
+  have hsa := Interval.start_mem a.interval ha.1.2.2.2.1
+  have hsb := Interval.start_mem b.interval hb.1.2.2.2.1
+  by_cases hsp : isSpecial op = true
+  · cases op <;> simp [isSpecial] at hsp
+    · obtain ⟨_, h2, h3⟩ := piece_spec _ _ ha.1 hb.1 hsa hsb
+      refine ⟨piece_dom_wf a b hb h2 h3, ?_⟩
+      show ((a.piece b).interval).w = _
+      rw [piece_interval]; exact h3
+    · refine ⟨add_dom_wf a b ha hb hwid hw1, ?_⟩
+      show ((a.add b).interval).w = _
+      rw [add_interval]; exact (add_wf _ _ ha.1 hb.1 hwid hw1).2
+    · refine ⟨sub_dom_wf a b ha hb hwid hw1, ?_⟩
+      show ((a.sub b).interval).w = _
+      rw [sub_interval]; exact (sub_wf _ _ ha.1 hb.1 hwid hw1).2
+    · exact (shiftLeft_spec a b ha hb hw1 hsa hsb).2
+    · obtain ⟨_, h2, h3⟩ := signedMul_spec _ _ ha.1 hb.1 hwid hw1 hsa hsb
+      refine ⟨signedMul_dom_wf a b ha hb h2 h3, ?_⟩
+      show ((a.signedMul b).interval).w = _
+      rw [signedMul_interval]; exact h3
+  · have hsp' : isSpecial op = false := by simpa using hsp
+    rw [binOp_fallthrough conc a b op hsp']
+    have hwr := binOpWidth_pos op a.interval.w b.interval.w hw1
+    have hI : (if a.interval.start = a.interval.stop ∧ b.interval.start = b.interval.stop then
+            match conc op a.interval.start b.interval.start with
+            | some v => Interval.single (binOpWidth op a.w b.w) v
+            | none => Interval.newTop (binOpWidth op a.w b.w)
+          else Interval.newTop (binOpWidth op a.w b.w) : Interval).WF ∧
+        (if a.interval.start = a.interval.stop ∧ b.interval.start = b.interval.stop then
+            match conc op a.interval.start b.interval.start with
+            | some v => Interval.single (binOpWidth op a.w b.w) v
+            | none => Interval.newTop (binOpWidth op a.w b.w)
+          else Interval.newTop (binOpWidth op a.w b.w) : Interval).w = binOpWidth op a.interval.w b.interval.w := by
+      split
+      · split
+        · rename_i v hv
+          exact ⟨Interval.wf_single _ (by unfold IntervalDomain.w; omega) _ (hconc op _ _ v hv), rfl⟩
+        · exact ⟨Interval.wf_newTop _ hwr, rfl⟩
+      · exact ⟨Interval.wf_newTop _ hwr, rfl⟩
+    exact ⟨dom_wf_mk hI.1 (by intro v h; cases h) (by intro v h; cases h) (max_lt ha.2.2.2 hb.2.2.2), hI.2⟩
+
+/-! ### `RegisterDomain::un_op` -/
+
+theorem cneg_inRange (w : Nat) (hw : 0 < w) (x : Int) : InRange w (cneg w x) := wrap_inRange w hw _
+
+/-- **C02-unop (soundness).** -/
+theorem unOp_sound (a : IntervalDomain) (op : UnOp) (ha : a.WF) {x z : Int} (hx : a.Mem x)
+    (hz : concUn op a.interval.w x = some z) : (a.unOp op).Mem z := by
+  cases op <;> simp only [concUn] at hz
+  · -- INT_NEGATE
+    cases hz
+    exact bitwiseNot_sound a.interval ha.1 hx
+  · -- INT_2COMP
+    cases hz
+    exact int2Comp_sound a.interval ha.1 hx
+  · -- BOOL_NEGATE
+    split at hz
+    · rename_i hw8
+      unfold IntervalDomain.unOp
+      simp only
+      have hxs1 := hx.1; have hxs2 := hx.2.1
+      split
+      · rename_i hs
+        have hxs : x = a.interval.start := by omega
+        split at hz
+        · rename_i hx0
+          cases hz
+          rw [if_pos ⟨by omega, hw8⟩]
+          exact (Interval.mem_single _ _ _).mpr rfl
+        · split at hz
+          · rename_i hx0 hx1
+            cases hz
+            rw [if_neg (by intro h; omega)]
+            exact (Interval.mem_single _ _ _).mpr rfl
+          · cases hz
+      · apply (Interval.mem_newTop _ _).mpr
+        unfold IntervalDomain.w; rw [hw8]
+        split at hz
+        · cases hz; decide
+        · split at hz
+          · cases hz; decide
+          · cases hz
+    · cases hz
+  all_goals cases hz
+
+/-- **C02-unop (well-formedness).** -/
+theorem unOp_wf (a : IntervalDomain) (op : UnOp) (ha : a.WF) (hw1 : 1 < a.interval.w) :
+    (a.unOp op).WF := by
+  have hw0 : 0 < a.interval.w := by omega
+  have htop : ∀ w, 1 < w → (IntervalDomain.newTop w).WF := fun w h => ofInterval_wf' (Interval.wf_newTop w h)
+  cases op
+  · exact dom_wf_mk (bitwiseNot_wf a.interval ha.1 hw1).1 (by intro v h; cases h) (by intro v h; cases h) ha.2.2.2
+  · have hI := int2Comp_wf a.interval ha.1 hw1
+    refine dom_wf_mk hI.1 ?_ ?_ ha.2.2.2
+    · intro v hv
+      rw [hI.2]
+      split at hv
+      · split at hv
+        · cases hv; exact cneg_inRange _ hw0 _
+        · cases hv
+      · cases hv
+    · intro v hv
+      rw [hI.2]
+      cases hu : a.upper with
+      | none => rw [hu] at hv; cases hv
+      | some u => rw [hu] at hv; cases hv; exact cneg_inRange _ hw0 _
+  · unfold IntervalDomain.unOp
+    simp only
+    split
+    · split
+      · exact ofInterval_wf' (Interval.wf_single 8 (by decide) 1 (by decide))
+      · exact ofInterval_wf' (Interval.wf_single 8 (by decide) 0 (by decide))
+    · exact htop _ hw1
+  all_goals first
+    | exact htop _ hw1
+    | exact htop 8 (by decide)
+
+/-! ### `RegisterDomain::cast` -/
+
+theorem zeroExtend_dom_interval (a : IntervalDomain) (w' : Nat) :
+    (a.zeroExtend w').interval = a.interval.zeroExtend w' := rfl
+
+/-- **C02-cast (soundness).** `w'` is the result width; extensions require `a.w ≤ w'`, the count casts
+that the bit length of the operand fits into the result (`hfit`, true for operands of at most 64 bit). -/
+theorem cast_sound (a : IntervalDomain) (op : CastOp) (w' : Nat) (ha : a.WF) (hw' : 1 < w')
+    (hext : (op = .intZExt ∨ op = .intSExt) → a.interval.w ≤ w')
+    (hfit : (op = .popCount ∨ op = .lzCount) → (a.interval.w : Int) ≤ smax w')
+    {x z : Int} (hx : a.Mem x) (hz : concCast op a.interval.w w' x = some z) : (a.cast op w').Mem z := by
+  cases op <;> simp only [concCast] at hz
+  · cases hz
+    unfold IntervalDomain.cast
+    simp only
+    split
+    · rename_i heq
+      unfold IntervalDomain.w at heq
+      rw [← heq, czext_self ha.1.1 (Interval.mem_inRange ha.1 hx)]; exact hx
+    · exact zeroExtend_sound a.interval ha.1 w' (hext (.inl rfl)) hx
+  · cases hz
+    exact signExtend_sound a.interval ha.1 w' (hext (.inr rfl)) hx
+  · cases hz
+  · cases hz
+  · cases hz
+  · cases hz
+    exact popCount_sound a ha w' hw' (hfit (.inl rfl)) hx
+  · cases hz
+    exact lzCount_sound a ha w' hw' (hfit (.inr rfl)) hx
+
+theorem czext_inRange (w w' : Nat) (h : 0 < w') (x : Int) : InRange w' (czext w w' x) := wrap_inRange _ h _
+theorem csext_inRange (w w' : Nat) (h : 0 < w') (x : Int) : InRange w' (csext w w' x) := wrap_inRange _ h _
+
+/-- **C02-cast (well-formedness).** -/
+theorem cast_wf (a : IntervalDomain) (op : CastOp) (w' : Nat) (ha : a.WF) (hw' : 1 < w')
+    (hext : (op = .intZExt ∨ op = .intSExt) → a.interval.w ≤ w')
+    (hfit : (op = .popCount ∨ op = .lzCount) → (a.interval.w : Int) ≤ smax w') :
+    (a.cast op w').WF ∧ (a.cast op w').interval.w = w' := by
+  have hw0' : 0 < w' := by omega
+  have htop : (IntervalDomain.newTop w').WF ∧ (IntervalDomain.newTop w').interval.w = w' :=
+    ⟨ofInterval_wf' (Interval.wf_newTop w' hw'), rfl⟩
+  cases op
+  · unfold IntervalDomain.cast
+    simp only
+    split
+    · rename_i heq; unfold IntervalDomain.w at heq; exact ⟨ha, heq⟩
+    · obtain ⟨hI, hwI⟩ := zeroExtend_wf a.interval ha.1 w' (hext (.inl rfl))
+      refine ⟨dom_wf_mk hI ?_ ?_ ha.2.2.2, hwI⟩
+      · intro v hv
+        rw [hwI]
+        split at hv
+        · split at hv
+          · cases hv; exact czext_inRange _ _ hw0' _
+          · cases hv
+        · cases hv
+      · intro v hv
+        rw [hwI]
+        split at hv
+        · split at hv
+          · cases hv; exact czext_inRange _ _ hw0' _
+          · cases hv
+        · cases hv
+  · obtain ⟨hI, hwI⟩ := signExtend_wf a.interval ha.1 w' (hext (.inr rfl))
+    refine ⟨dom_wf_mk hI ?_ ?_ ha.2.2.2, hwI⟩
+    · intro v hv
+      show InRange w' v
+      cases hu : a.upper with
+      | none => rw [hu] at hv; cases hv
+      | some u => rw [hu] at hv; cases hv; exact csext_inRange _ _ hw0' _
+    · intro v hv
+      show InRange w' v
+      cases hl : a.lower with
+      | none => rw [hl] at hv; cases hv
+      | some u => rw [hl] at hv; cases hv; exact csext_inRange _ _ hw0' _
+  · exact htop
+  · exact htop
+  · exact htop
+  · exact popCount_wf a ha w' hw' (hfit (.inl rfl))
+  · exact lzCount_wf a ha w' hw' (hfit (.inr rfl))
+
+/-! ### `RegisterDomain::subpiece` -/
+
+theorem subpiece_interval (a : IntervalDomain) (low size : Nat) :
+    (a.subpiece low size).interval = a.interval.subpiece low size := by
+  unfold IntervalDomain.subpiece Interval.subpiece IntervalDomain.w
+  by_cases hl : low = 0
+  · subst hl
+    simp only [ne_eq, not_true_eq_false, if_false]
+    by_cases h : a.interval.w > size
+    · rw [if_pos h, if_pos h]; rfl
+    · rw [if_neg h, if_neg h]
+  · simp only [ne_eq, hl, not_false_eq_true, if_true]
+    have e : (a.subpieceHigher low).interval = a.interval.subpieceHigher low := rfl
+    by_cases h : (a.interval.subpieceHigher low).w > size
+    · rw [if_pos (by rw [e]; exact h), if_pos h]; rfl
+    · rw [if_neg (by rw [e]; exact h), if_neg h]; rfl
+
+theorem csubpiece_inRange (w low size : Nat) (h : 0 < size) (x : Int) : InRange size (csubpiece w low size x) :=
+  wrap_inRange _ h _
+
+theorem subpieceHigher_dom_wf (a : IntervalDomain) (low : Nat) (ha : a.WF) (hI : (a.interval.subpieceHigher low).WF)
+    (hwI : (a.interval.subpieceHigher low).w = a.interval.w - low) : (a.subpieceHigher low).WF := by
+  have h0 : 0 < a.interval.w - low := by rw [← hwI]; exact hI.1
+  refine dom_wf_mk hI ?_ ?_ (Nat.lt_of_le_of_lt (Nat.shiftRight_le _ _) ha.2.2.2)
+  · intro v hv
+    rw [hwI]
+    split at hv
+    · simp only at hv
+      split at hv
+      · cases hv; exact csubpiece_inRange _ _ _ h0 _
+      · cases hv
+    · cases hv
+  · intro v hv
+    rw [hwI]
+    split at hv
+    · simp only at hv
+      split at hv
+      · cases hv; exact csubpiece_inRange _ _ _ h0 _
+      · cases hv
+    · cases hv
+
+theorem subpieceLower_dom_wf (a : IntervalDomain) (size : Nat) (ha : a.WF) (hI : (a.interval.subpieceLower size).WF)
+    (hwI : (a.interval.subpieceLower size).w = size) : (a.subpieceLower size).WF := by
+  have h0 : 0 < size := by rw [← hwI]; exact hI.1
+  refine dom_wf_mk hI ?_ ?_ ha.2.2.2
+  · intro v hv
+    rw [hwI]
+    split at hv
+    · split at hv
+      · simp only at hv
+        split at hv
+        · cases hv; exact csubpiece_inRange _ _ _ h0 _
+        · cases hv
+      · cases hv
+    · cases hv
+  · intro v hv
+    rw [hwI]
+    split at hv
+    · split at hv
+      · simp only at hv
+        split at hv
+        · cases hv; exact csubpiece_inRange _ _ _ h0 _
+        · cases hv
+      · cases hv
+    · cases hv
+
+/-- **C02-subpiece (soundness).** `low` bits are dropped and `size` bits kept (`low + size ≤ w`). -/
+theorem subpiece_sound (a : IntervalDomain) (low size : Nat) (ha : a.WF) (hs0 : 1 < size)
+    (hs : low + size ≤ a.interval.w) {x : Int} (hx : a.Mem x) :
+    (a.subpiece low size).Mem (csubpiece a.interval.w low size x) := by
+  show ((a.subpiece low size).interval).Mem _
+  rw [subpiece_interval]; exact (subpiece_spec a.interval ha.1 low size hs0 hs hx).1
+
+/-- **C02-subpiece (well-formedness).** -/
+theorem subpiece_wf (a : IntervalDomain) (low size : Nat) (ha : a.WF) (hs0 : 1 < size)
+    (hs : low + size ≤ a.interval.w) :
+    (a.subpiece low size).WF ∧ (a.subpiece low size).interval.w = size := by
+  have hsa := Interval.start_mem a.interval ha.1.2.2.2.1
+  refine ⟨?_, by rw [subpiece_interval]; exact (subpiece_spec a.interval ha.1 low size hs0 hs hsa).2.2⟩
+  unfold IntervalDomain.subpiece
+  by_cases hl : low = 0
+  · subst hl
+    simp only [ne_eq, not_true_eq_false, if_false]
+    split
+    · rename_i hgt
+      obtain ⟨_, h2, h3⟩ := subpieceLower_spec a.interval ha.1 size hs0 (by omega) hsa
+      exact subpieceLower_dom_wf a size ha h2 h3
+    · exact ha
+  · simp only [ne_eq, hl, not_false_eq_true, if_true]
+    obtain ⟨hm, h2, h3⟩ := subpieceHigher_spec a.interval ha.1 low (by omega) hsa
+    have hH := subpieceHigher_dom_wf a low ha h2 h3
+    split
+    · obtain ⟨_, h4, h5⟩ := subpieceLower_spec (a.interval.subpieceHigher low) h2 size hs0 (by omega) hm
+      exact subpieceLower_dom_wf (a.subpieceHigher low) size hH h4 h5
+    · exact hH
+
+/-! ### the reference semantics on signed values is core's `BitVec` arithmetic -/
+
+/-- **C02-bitvec-add.** `cadd` on signed values is `BitVec` addition (likewise `csub`, `cmul`, `cneg`). -/
+theorem cadd_toInt {w : Nat} (x y : BitVec w) : cadd w x.toInt y.toInt = (x + y).toInt :=
+  (BitVec.toInt_add x y).symm
+theorem csub_toInt {w : Nat} (x y : BitVec w) : csub w x.toInt y.toInt = (x - y).toInt :=
+  (BitVec.toInt_sub (x := x) (y := y)).symm
+theorem cmul_toInt {w : Nat} (x y : BitVec w) : cmul w x.toInt y.toInt = (x * y).toInt :=
+  (BitVec.toInt_mul x y).symm
+theorem cneg_toInt {w : Nat} (x : BitVec w) : cneg w x.toInt = (-x).toInt :=
+  (BitVec.toInt_neg (x := x)).symm
+
+/-- the soundness of addition stated on bit-vectors: for all members `x`, `y` (as `BitVec w`) the sum
+`x + y` is a member of the abstract sum -/
+theorem add_sound_bitvec {w : Nat} (I J : Interval) (hI : I.WF) (hJ : J.WF) (hwI : I.w = w) (hwJ : J.w = w)
+    (x y : BitVec w) (hx : I.Mem x.toInt) (hy : J.Mem y.toInt) : (I.add J).Mem (x + y).toInt := by
+  subst hwI
+  rw [← cadd_toInt]
+  exact add_sound I J hI hJ hwJ hx hy
+
+/-! ### non-vacuity: the hypotheses are satisfiable on concrete non-trivial values -/
+
+/-- `[-3, stride 2, 5]` (1 byte) with a lower hint -/
+def exA : IntervalDomain := ⟨⟨8, -3, 5, 2⟩, none, some (-7), 3⟩
+/-- `[10, stride 5, 30]` (1 byte) with an upper hint -/
+def exB : IntervalDomain := ⟨⟨8, 10, 30, 5⟩, some 40, none, 0⟩
+
+theorem exA_wf : exA.WF :=
+  dom_wf_mk (by decide) (by intro u h; cases h) (by intro l h; cases h; decide) (by decide)
+theorem exB_wf : exB.WF :=
+  dom_wf_mk (by decide) (by intro u h; cases h; decide) (by intro l h; cases h) (by decide)
+
+example : (exA.binOp (fun _ _ _ => none) .intAdd exB).Mem (cadd 8 3 25) :=
+  binOp_sound (fun _ _ _ => none) exA exB .intAdd exA_wf exB_wf (by decide) rfl
+    (by intro op x y v h; cases h) (x := 3) (y := 25) (by decide) (by decide) rfl
+
+example : (exA.binOp (fun _ _ _ => none) .intMult exB).Mem (cmul 8 (-3) 30) :=
+  binOp_sound (fun _ _ _ => none) exA exB .intMult exA_wf exB_wf (by decide) rfl
+    (by intro op x y v h; cases h) (x := -3) (y := 30) (by decide) (by decide) rfl
+
+example : exA.binOp (fun _ _ _ => none) .intAdd exB = ⟨⟨8, 7, 35, 1⟩, some 45, some 3, 3⟩ := by decide
+example : (exA.cast .intZExt 16).Mem (czext 8 16 (-1)) :=
+  cast_sound exA .intZExt 16 exA_wf (by decide) (by intro _; decide) (by intro h; rcases h with h | h <;> cases h)
+    (x := -1) (by decide) rfl
 
 end CweModel.C02
